@@ -247,7 +247,7 @@ var symStr = map[string]string{
 	"l": "a", "u": "A", "d": "1", "s": "!", "p": "(", "q": `"`, "b": `\`, "at": "@",
 	"dot": ".", "sp": " ", "del": "\u007f", "c80": "\u0080", "c81": "\u0081", "cm": "\u0301",
 	"i130": "\u0130", "ss": "\u00df", "fs": "\u03c2", "fw": "\uff21",
-	"ace": "xn--9ca", "ACE": "XN--9CA", "pm": "postmaster", "PM": "POSTMASTER",
+	"ace": "xn--9ca", "ACE": "XN--9CA", "pm": "postmaster", "PM": "POSTMASTER", "Pm": "Postmaster",
 	// comparison layer (Sym2 of Address.tla): lower-casing and case folding disagree on these
 	"sg": "\u03c3", "SG": "\u03a3", "li": "i", "es": "s", "ls": "\u017f", "kk": "k", "KS": "\u212a",
 	// domain layer (DSym of Address.tla): degenerate A-label shapes
